@@ -115,6 +115,17 @@ def run(ctx):
         reqs.append(req)
         metas.append(("compileSchema", None, {"spec": json.loads(json.dumps(spec, default=str)), "tag": tag}, exp))
 
+    def tie_build(spec, compiled, tag):
+        """the same spec through `buildSchema` (lean/PM/SchemaBuild.lean): no automata handed over, the model compiles them"""
+        t = schemas.build_tie(spec, compiled)
+        if t is None:
+            ctx.count("build:python-recursion-limit")
+            return
+        req, exp, kind = t
+        ctx.count("build:" + tag + ":" + kind)
+        reqs.append(req)
+        metas.append(("buildSchema", None, {"spec": json.loads(json.dumps(spec, default=str)), "tag": tag}, exp))
+
     # `str.split(" ")` as the model reads it
     for _ in range(ctx.budget(40, 200)):
         w = "".join(rng2.choice(" ab_ ") for _ in range(rng2.randint(0, 7)))
@@ -137,6 +148,7 @@ def run(ctx):
         sid = info.lean_id
         ctx.count("schemas")
         tie_compile(schema.spec, schema, "generated")
+        tie_build(schema.spec, schema, "generated")
         # the same configuration made ill-formed in one place must be refused when the schema is built: an `excludes` or a
         # node `marks` expression naming something that is neither a mark nor a group, or one name used for a node and a mark
         bad_spec = json.loads(json.dumps(schema.spec, default=str))
@@ -150,9 +162,11 @@ def run(ctx):
         stb, scb = outcome(lambda: Schema(bad_spec))
         ctx.count("malformed:" + kind + ":" + ("accepted" if stb == "ok" else "rejected"))
         tie_compile(bad_spec, None, "malformed-" + kind)
+        tie_build(bad_spec, None, "malformed-" + kind)
         for _ in range(2):
             mspec, labels = schemas.mutate_spec(rng2, schema.spec)
             tie_compile(mspec, None, "mutated", labels)
+            tie_build(mspec, None, "mutated")
         if stb in ("ok", "hang"):
             ctx.violation("malformed-accepted", f"Schema() accepted an ill-formed mark configuration ({kind})", {"spec": bad_spec, "malformed": kind})
         # exclusion relation
